@@ -33,9 +33,11 @@ def queries(tier):
                     defines={'LONGPATH': 1}, cxxflags=('-fno-inline',), tu_redirect=REDIR_LONG, stubs=('fmod.c',), renames={'fmod': 'vt_fmod'}, unwind=24, timeout=to,
                     checks='none', bound='classification branch: every class and switching-function outcome; which word a class selects is NOT checked against optimality'))
     for rs, nm, tu, nw in ((1, 'reedsshepp', 'src/ompl/base/spaces/src/ReedsSheppStateSpace.cpp', 18), (0, 'dubins', 'src/ompl/base/spaces/src/DubinsStateSpace.cpp', 6)):
-        words = range(nw) if tier == 'thorough' else ([0, 4, 9, 12, 16, 17] if rs else [0, 2, 4])
+        # proofs take 300-600 s per word (refutations ~3 min): the quick tier keeps one five-segment Reeds-Shepp word and may report it
+        # UNDECIDED within its budget (then it is dropped from the claim of that run); all words are thorough-tier
+        words = range(nw) if tier == 'thorough' else ([16] if rs else [])
         for w in words:
             qs.append(Query('segment_walk[%s,word=%d]' % (nm, w), 'C14_interp.cpp', 'harness_segment_walk', tus=[tu], defines={'RS': rs, 'WORD': w}, stubs=('trig.c',), renames={'sin': 'vt_sin', 'cos': 'vt_cos'},
-                            unwind=8, timeout=to, checks='none', uf=('fadd', 'fsub', 'fmul'), note='fadd/fsub/fmul abstracted by uninterpreted functions (equality with the reference walk; a failing abstract query falls back to exact arithmetic); sin/cos are uninterpreted (contract stub trig.c): positions are not asserted, only the arc bookkeeping and the heading',
+                            unwind=8, timeout=(420 if tier == 'quick' else 1800), checks='none', uf=('fadd', 'fsub', 'fmul'), note='fadd/fsub/fmul abstracted by uninterpreted functions (equality with the reference walk; a failing abstract query falls back to exact arithmetic); sin/cos are uninterpreted (contract stub trig.c): positions are not asserted, only the arc bookkeeping and the heading',
                             bound='word %d of the real %s word table (case split), every segment length k/4 in [%s2,2], t in {1/8..1}, start heading k/4 in [-2,2]%s' % (w, nm, '-' if rs else '0..', '' if rs else ', both directions (reverse flag)')))
     return qs
